@@ -1293,6 +1293,14 @@ def main(repo: str, outdir: str, dry: bool = False) -> int:
         return (HEADER + "namespace Optyx.Generated\n\n" + gen_lp_glue(src("solvers/lp_solver.py"))
                 + gen_lp_rows(src("analysis.py")) + "\nend Optyx.Generated\n")
 
+    def f_scipypost():
+        import py2lean_post
+        try:
+            body = py2lean_post.gen_scipy_post(src("solvers/scipy_solver.py"))
+        except py2lean_post.TranslateError as e:
+            raise TranslateError(str(e))
+        return HEADER + "namespace Optyx.Generated\n\n" + body + "\nend Optyx.Generated\n"
+
     import source_pins
 
     def f_pins(prop):
@@ -1308,7 +1316,8 @@ def main(repo: str, outdir: str, dry: bool = False) -> int:
     for fname, make in tuple((f"Pins{p_}", f_pins(p_)) for p_ in sorted(source_pins.ANCHORS)) + (("GradRules", f_rules), ("Tables", f_tables), ("Closures", f_closures), ("SolverGlue", f_glue),
                         ("JacRow", f_jacrow), ("InitPoint", f_init), ("Dispatch", f_dispatch),
                         ("ApiGlue", f_apiglue), ("LPGlue", f_lpglue), ("SortGlue", f_sort),
-                        ("DegreeStep", f_degstep), ("GradStep", f_gradstep), ("LPStep", f_lpstep), ("JacRowVec", f_jacrowvec)):
+                        ("DegreeStep", f_degstep), ("GradStep", f_gradstep), ("LPStep", f_lpstep), ("JacRowVec", f_jacrowvec),
+                        ("ScipyPost", f_scipypost)):
         path = os.path.join(outdir, fname + ".lean")
         try:
             text = make()
